@@ -111,7 +111,10 @@ def gen(rng, tier):
         if rng.random() < 0.04:
             yield _gen_translated(rng)
             continue
-        if rng.random() < RDB_SHARE:
+        # the thorough tier runs 33 times the cases; its share of real searches is a fifth (about 12 000 real
+        # RuleDBForest runs instead of 60 000: each retains its full key / answer history, and the quick-tier
+        # random stream is unchanged by this)
+        if rng.random() < (RDB_SHARE if tier != "thorough" else RDB_SHARE / 5):
             # second case family: a REAL RuleDBForest driven through add() (harness/props/c03_rdb.py)
             yield RDB.gen_case(rng)
             continue
